@@ -91,6 +91,15 @@ def sources(tier, seed, ctx):
             # its template is implied by the unit clause and a dropped clause cannot be seen
             for down in ('NOT', 'IFF'):
                 srcs.append({'k': 'cnftemplate', 't': t, 'n': max(a, 1) if t in gen.NULLARY else a, 'down': down})
+            # ... and with an operand listed twice (duplicated operands are inside the quantifier; for a parity gate the
+            # multiplicity matters)
+            if a >= 2:
+                for ops in ([[1, 1]] if a == 2 else [[1, 2, 1], [2, 2, 2], [1, 1, 2]]):
+                    srcs.append({'k': 'cnftemplate', 't': t, 'n': 2, 'ops': ops, 'down': 'IFF'})
+                    srcs.append({'k': 'cnftemplate', 't': t, 'n': 2, 'ops': ops})
+    for t in ('XOR', 'NXOR', 'AND', 'NOR'):
+        for ops in ([1, 2, 3, 1], [1, 2, 2, 1], [1, 2, 3, 4, 2], [3, 3, 3, 3]):
+            srcs.append({'k': 'cnftemplate', 't': t, 'n': 4, 'ops': ops, 'down': 'NOT'})
     for code in itertools.product('01', repeat=4):
         srcs.append({'k': 'synthcode', 'code': ''.join(code)})
     return srcs
@@ -302,7 +311,7 @@ def record(src):
             from . import c05
         except Exception:
             return []
-        gs = [[src['t'], list(range(1, src['n'] + 1)) if src['t'] not in gen.NULLARY else []]]
+        gs = [[src['t'], (src.get('ops') or list(range(1, src['n'] + 1))) if src['t'] not in gen.NULLARY else []]]
         if src.get('down'):
             gs.append([src['down'], [src['n'] + 1]])
         return c05.record({'k': 'cnf', 'net': [src['n'], gs], 'outs': [src['n'] + len(gs)], 'sel': None, 'variant': 'plain', 'vs': 0})
